@@ -307,6 +307,9 @@ func parsePrivateKey(der []byte) (crypto.PrivateKey, error) {
 			return nil, errors.New("tls: found unknown private key type in PKCS#8 wrapping")
 		}
 	}
+	if key, err := x509.ParseECPrivateKey(der); err == nil {
+		return key, nil
+	}
 	if key, err := X.ParsePKCS8UnecryptedPrivateKey(der); err == nil {
 		return key, nil
 	}
